@@ -17,6 +17,7 @@ make)
   mkdir -p "$D/verif/tmp"
   echo "$D" ;;
 sync)
+  git -C "$D/repo" checkout -q -- . ; git -C "$D/repo" checkout -q --detach "$(git -C /repo rev-parse HEAD)"
   rsync -a --delete --exclude harness/target --exclude tmp --exclude .git --exclude replays /verif/ "$D/verif/"
   sed -i "s#path = \"/repo\"#path = \"$D/repo\"#" "$D/verif/harness/Cargo.toml" ;;
 try)
